@@ -286,7 +286,7 @@ def case(ctx, rng, idx, state):
 if __name__ == "__main__":
     harness.main(
         PROP, "exploration", case, setup_fn=setup,
-        tiers=dict(quick=dict(cases=408, shards=8, time=120), thorough=dict(cases=8000, shards=16, time=1000)),
+        tiers=dict(quick=dict(cases=408, shards=8, time=900), thorough=dict(cases=8000, shards=16, time=3000)),
         rule="pairs of random Hermitian systems on one random lattice (1-4 WFs) with R sets equal / permuted / nested / "
              "overlapping (cycled), matrix sets {Ham},{Ham,AA},{Ham,AA,BB},{Ham,AA,SS} with an extra key in one of them "
              "in half of the cases, equal or different centres, use_pointgroup in {1,0,-1}; every third case a pair of "
